@@ -83,6 +83,7 @@ pub fn run(args: &[String]) {
     if let Some(inp) = flag(args, "--in") {
         for (i, rec) in read_ndjson(inp).iter().enumerate() {
             let mut ctx = Context::default();
+            if i % 2 == 1 { precreate_leaves_reversed(&mut ctx, &rec["nodes"]); }
             let refs = import(&mut ctx, &rec["nodes"]);
             let root = refs[rec["root"].as_u64().unwrap() as usize - 1];
             out.put(&simplify_record(&mut ctx, root, &format!("g{i}")));
@@ -162,6 +163,7 @@ pub fn run_c13(args: &[String]) {
         if b * bsz < roots_all.len() {
             let hi = ((b + 1) * bsz).min(roots_all.len());
             for rec in roots_all[b * bsz..hi].iter() {
+                if b % 2 == 1 { precreate_leaves_reversed(&mut ctx, &rec["nodes"]); }
                 let refs = import(&mut ctx, &rec["nodes"]);
                 roots.push(refs[rec["root"].as_u64().unwrap() as usize - 1]);
             }
